@@ -82,6 +82,8 @@ func TestVerifBounded_C13_FilterWire(t *testing.T) {
 	schema := sqlgen.NewSchema()
 	schema.MustRegisterType("c13", sqlgen.UniqueId, c13Live{})
 	rows := c13LiveRows()
+	// plus a row holding zero values in the non-pointer columns (what a NULL wrongly decoded as a zero value would match)
+	rows = append(rows, &c13Live{Id: 77})
 	evals, distinct, failures := 0, 0, 0
 	fail := func(detail string, f sqlgen.Filter) {
 		failures++
@@ -138,6 +140,18 @@ func TestVerifBounded_C13_FilterWire(t *testing.T) {
 				check(sqlgen.Filter{col: v, "id": r.Id})
 			}
 		}
+		// a NULL filter value on every column, as a nil interface and (where the column has a pointer form) a typed nil pointer:
+		// rejected, or matching exactly the rows it matched before the wire
+		for col := range vals {
+			check(sqlgen.Filter{col: nil})
+		}
+		var nilInt *int64
+		var nilStr *string
+		var nilTime *time.Time
+		check(sqlgen.Filter{"p_i": nilInt})
+		check(sqlgen.Filter{"p_s": nilStr})
+		check(sqlgen.Filter{"t": nilTime})
+		check(sqlgen.Filter{"id": nilInt})
 		check(sqlgen.Filter{})
 		check(nil)
 	}
@@ -183,11 +197,59 @@ func TestVerifBounded_C13_BinlogRow(t *testing.T) {
 	schema := sqlgen.NewSchema()
 	schema.MustRegisterType("c13", sqlgen.UniqueId, c13Live{})
 	table := schema.ByName["c13"]
-	cm := &columnMap{expectedColumns: len(table.Columns)}
-	for i := range table.Columns {
-		cm.source = append(cm.source, i)
+	n := len(table.Columns)
+	// three database layouts: the struct's own order, the reverse order, and the struct's order with an extra database column in front
+	type layout struct {
+		name string
+		cm   *columnMap
+		pos  func(i int) int // where struct column i sits in the binlog row
 	}
+	var layouts []layout
+	ident := &columnMap{expectedColumns: n}
+	rev := &columnMap{expectedColumns: n}
+	extra := &columnMap{expectedColumns: n + 1}
+	for i := 0; i < n; i++ {
+		ident.source = append(ident.source, i)
+		rev.source = append(rev.source, n-1-i)
+		extra.source = append(extra.source, i+1)
+	}
+	layouts = append(layouts, layout{"same order", ident, func(i int) int { return i }},
+		layout{"reversed", rev, func(i int) int { return n - 1 - i }},
+		layout{"extra first column", extra, func(i int) int { return i + 1 }})
 	evals, distinct, failures := 0, 0, 0
+	for _, lay := range layouts[1:] {
+		for _, r := range c13LiveRows() {
+			vals, err := schema.UnbuildStruct("c13", r)
+			if err != nil {
+				t.Fatal(err)
+			}
+			row := make([]interface{}, lay.cm.expectedColumns)
+			for k := range row {
+				row[k] = int64(777) // content of a column the struct does not map
+			}
+			for i, v := range vals {
+				row[lay.pos(i)] = v
+			}
+			evals++
+			got, err := parseBinlogRow(table, row, lay.cm)
+			detail := ""
+			if err != nil {
+				detail = fmt.Sprintf("layout %q: %v", lay.name, err)
+			} else if !c13LiveEqual(r, got.(*c13Live)) {
+				detail = fmt.Sprintf("layout %q: decoded %+v, written %+v", lay.name, *got.(*c13Live), *r)
+			}
+			if detail != "" {
+				failures++
+				if failures <= 3 {
+					fmt.Printf("VERIF-FAIL-INPUT: %s\n", verifJSON(map[string]interface{}{"row": strconv.FormatInt(r.Id, 10), "detail": detail}))
+					t.Error(detail)
+				} else {
+					t.Fail()
+				}
+			}
+		}
+	}
+	cm := ident
 	for _, r := range c13LiveRows() {
 		distinct++
 		vals, err := schema.UnbuildStruct("c13", r)
